@@ -8,7 +8,7 @@ from .common import case, guarded, ordinal_instance, strict, rand_perm
 ID = "C13"
 RULE = ("exhaustive: m = 2; every non-empty set of distinct strict orders over 3 alternatives (both storage orders); "
         "every set of <= 3 (quick) / <= 4 (thorough) distinct strict orders over 4 alternatives, stored in increasing "
-        "and in decreasing lexicographic order; all sets of <= 2 orders over three non-contiguous id sets of size 4; "
+        "and in decreasing lexicographic order (thorough: also all sets of 5, one storage order); all sets of <= 2 orders over three non-contiguous id sets of size 4; "
         "m = 5: the identity order with every other order, and with every pair of other orders (quick: 1200 sampled "
         "pairs). random: m in 4..6 with arbitrary positive ids and multiplicities, uniformly random votes / votes grown "
         "from a random tree (path, star, caterpillar, random) +- noise votes (uniform or an adjacent swap of a planted "
@@ -19,8 +19,8 @@ RULE = ("exhaustive: m = 2; every non-empty set of distinct strict orders over 3
 EXHAUSTIVE = {"quick": "m = 2; all sets of distinct strict orders for m = 3 (63 sets x 2 storage orders); all sets of "
                        "1..3 distinct orders for m = 4 x 2 storage orders; m = 5: identity + each other order",
               "thorough": "m = 2; all sets of distinct strict orders for m = 3; all sets of 1..4 distinct orders for "
-                          "m = 4 x 2 storage orders; m = 5: identity + each other order, identity + each pair of "
-                          "other orders"}
+                          "m = 4 x 2 storage orders and all sets of 5 orders (one storage order); m = 5: identity "
+                          "+ each other order, identity + each pair of other orders"}
 TRUSTED = ["not modelled: Trick's elimination loop in single_peaked_tree.py (is_single_peaked_on_tree, get_B, "
            "get_bottom_alts, restrict_preferences) and OrdinalInstance.flatten_strict; the implementation is compared "
            "with the proved reference decider for m <= 6 and its returned tree goes through the proved checker at "
@@ -139,6 +139,9 @@ def generate(tier, seed):
             out.append(_mk([1, 2, 3, 4], sub, exh=4))
             if k > 1:
                 out.append(_mk([1, 2, 3, 4], sub[::-1], exh=4))
+    if tier != "quick":      # all sets of 5 orders, one storage order
+        for sub in itertools.combinations(perms4, 5):
+            out.append(_mk([1, 2, 3, 4], sub, exh=4))
     # m = 4, sets of <= 2 orders over non-contiguous / unsorted ids (set iteration order differs)
     for ids in ([10, 3, 7, 22], [8, 16, 24, 32], [5, 4, 2, 9]):
         pp = list(itertools.permutations(ids))
